@@ -214,6 +214,7 @@ def main():
         print('extract.py: src/analyze.rs is not translated; GeneratedAnalyze.lean now holds a failing stub (Proofs/C13c will not build)')
     # the interpreter loop likewise: src/vm.rs `run` -> GeneratedVM.lean (Proofs/C05f.lean); a failure leaves a failing stub there
     print(subprocess.run([sys.executable, os.path.join(here, 'rs2lean_vm.py'), '--stub-on-failure', os.path.join(REPO, 'src', 'vm.rs')], stdout=subprocess.PIPE, stderr=subprocess.STDOUT, text=True).stdout.strip())
+    print(subprocess.run([sys.executable, os.path.join(here, 'rs2lean_state.py'), '--stub-on-failure', os.path.join(REPO, 'src', 'vm.rs')], stdout=subprocess.PIPE, stderr=subprocess.STDOUT, text=True).stdout.strip())  # `impl State` -> GeneratedState.lean (Proofs/C20c.lean)
 
 
 if __name__ == '__main__':
